@@ -1388,6 +1388,9 @@ def _validate_ports(reactor, ports):
     if not isinstance(ports, (list, tuple)):
         raise ValueError("'ports' must be a list of strings, ints or 2-tuples")
 
+    # finding a free local port can take several reactor turns: work
+    # on the ports as they were when we were called
+    ports = list(ports)
     processed_ports = []
     for port in ports:
         if isinstance(port, (set, list, tuple)):
